@@ -17,6 +17,7 @@ const (
 	hxM_ValidFinal
 	hxM_ForgedFinal
 	hxM_EmptyStateFinal
+	hxM_StaleFinal
 	hxM_Junk
 	hxM_Success235
 	hxM_Fail535
@@ -24,7 +25,7 @@ const (
 )
 
 var hxMsgNames = []string{"empty-challenge", "valid-server-first", "foreign-nonce", "malformed-server-first", "valid-server-final",
-	"forged-server-final", "empty-state-server-final", "junk", "235", "535"}
+	"forged-server-final", "empty-state-server-final", "stale-server-final", "junk", "235", "535"}
 
 func hxB64DecStd(in []byte) ([]byte, bool) {
 	if len(in)%4 != 0 {
@@ -90,6 +91,7 @@ type hxScramSrv struct {
 	lastFinal     []byte // its signature text
 	lastFinalRef  []byte // the reference signature at that time (nil: no exchange to sign)
 	ackedValid    bool
+	staleSig      []byte // valid signature of the most recent abandoned exchange
 	trace         []string
 }
 
@@ -147,6 +149,9 @@ func (z *hxScramSrv) handle(s *hxSrv, line string) {
 		if hxHasPrefix(l, "biwsbj") {
 			dec, ok := hxB64DecStd(l)
 			if ok {
+				if z.active && z.firstAccepted {
+					z.staleSig = z.refSignature()
+				}
 				z.active, z.firstAccepted, z.ackedValid = true, false, false
 				z.firstBare = append([]byte{}, dec[3:]...)
 				k := len(dec) - 1
@@ -223,6 +228,12 @@ func (z *hxScramSrv) handle(s *hxSrv, line string) {
 		es := z.emptyStateSignature()
 		payload = append([]byte("v="), es...)
 		z.lastWasFinal, z.lastFinal, z.lastFinalRef = true, es, z.refSignature()
+	case hxM_StaleFinal:
+		if z.staleSig == nil || (z.active && z.firstAccepted) {
+			svAssume(false) // only meaningful after an exchange was abandoned and before a new server-first was accepted
+		}
+		payload = append([]byte("v="), z.staleSig...)
+		z.lastWasFinal, z.lastFinal, z.lastFinalRef = true, z.staleSig, z.refSignature()
 	case hxM_Junk:
 		payload = svBytes("junk", 2)
 	case hxM_Success235:
@@ -268,7 +279,7 @@ func HarnessC15Scram() {
 	if !z.ackedValid {
 		anyFinal := false
 		for _, t := range z.trace {
-			if t == "valid-server-final" || t == "forged-server-final" || t == "empty-state-server-final" {
+			if t == "valid-server-final" || t == "forged-server-final" || t == "empty-state-server-final" || t == "stale-server-final" {
 				anyFinal = true
 			}
 		}
